@@ -231,7 +231,7 @@ Inductive reach (g : cfg) : list Z -> caps -> Prop :=
 
 (* transitions other than SetEncodings never switch a capability on and never touch pref/named *)
 Definition no_gain (c c' : caps) : Prop :=
-  c_pref c' = c_pref c /\ c_named c' = c_named c /\
+  (c_pref c' = c_pref c \/ c_pref c' = enc_Raw) /\ c_named c' = c_named c /\
   c_copyrect c' = c_copyrect c /\ c_newfbsize c' = c_newfbsize c /\ c_extdesktop c' = c_extdesktop c /\
   c_richcursor c' = c_richcursor c /\ c_cursorshape c' = c_cursorshape c /\ c_cursorpos c' = c_cursorpos c /\
   c_lastrect c' = c_lastrect c /\ c_led c' = c_led c /\
@@ -243,7 +243,8 @@ Lemma no_gain_keeps : forall latest c c', no_gain c c' -> pref_ok c -> flags_ok 
 Proof.
   intros latest c c' (P & N & A1 & A2 & A3 & A4 & A5 & A6 & A7 & A8 & A9 & A10 & A11) Hp Hf.
   split.
-  - unfold pref_ok in *. rewrite P, N. exact Hp.
+  - unfold pref_ok in *. rewrite N. destruct P as [P|P]; rewrite P; [exact Hp|].
+    right. split; [reflexivity|left; reflexivity].
   - unfold flags_ok in *. rewrite A1, A2, A3, A4, A5, A6, A7, A8.
     destruct Hf as (H1 & H2 & H3 & H4 & H5 & H5' & H6 & H7 & H8 & H9 & H10 & H11).
     repeat split; auto.
@@ -257,6 +258,7 @@ Proof.
   unfold no_gain. intros a b c (P & N & A1 & A2 & A3 & A4 & A5 & A6 & A7 & A8 & A9 & A10 & A11)
     (P' & N' & B1 & B2 & B3 & B4 & B5 & B6 & B7 & B8 & B9 & B10 & B11).
   repeat split; try congruence; auto.
+  destruct P as [P|P]; destruct P' as [P'|P']; [left|right|right|right]; congruence.
 Qed.
 
 Lemma decide_sends_no_gain : forall g c v, no_gain c (snd (decide_sends g c v)).
@@ -265,25 +267,37 @@ Proof.
   destruct (c_led c && g_ledhook g); cbn; repeat split; auto; intros; discriminate.
 Qed.
 
-Lemma render_no_gain : forall c1 s sn pl, no_gain c1 (fst (render_update c1 s sn pl)).
+Lemma render_no_gain : forall g c1 s sn pl, no_gain c1 (fst (render_update g c1 s sn pl)).
 Proof.
-  intros c1 s sn pl. unfold render_update.
-  destruct (announce (c_pref c1) (c_lastrect c1) (sn_cmw sn) (sn_cmh sn) (sn_maxrects sn) (pl_region pl)
+  intros g c1 s sn pl. unfold render_update.
+  destruct (announce_sel g (c_pref c1) (c_lastrect c1) (sn_cmw sn) (sn_cmh sn) (sn_maxrects sn) (pl_region pl)
                      (Z.of_nat (length (pl_copy pl))) (n_pseudo s)) as [[[n region'] lm]|];
     [|apply no_gain_refl].
   destruct (region_hdrs (c_pref c1) (emit_region (c_pref c1) (c_lastrect c1) (sn_cmw sn) (sn_cmh sn) region'));
     cbn [fst]; destruct (s_shape s), (s_pos s); unfold no_gain; cbn; repeat split; auto.
 Qed.
 
-Lemma model_update_no_gain : forall g c sn, no_gain c (fst (model_update g c sn)).
+Lemma prelude_no_gain : forall g c sn, no_gain c (bpp24_prelude g c sn).
 Proof.
-  intros g c sn. unfold model_update.
+  intros g c sn. unfold bpp24_prelude.
+  match goal with |- context [if ?b then _ else _] => destruct b end; [|apply no_gain_refl].
+  unfold no_gain. cbn. repeat split; auto.
+Qed.
+
+Lemma model_update_core_no_gain : forall g c sn, no_gain c (fst (model_update_core g c sn)).
+Proof.
+  intros g c sn. unfold model_update_core.
   destruct (c_newfbsize c && c_fbpending c).
   { unfold newfb_update. cbn [fst]. unfold no_gain. cbn. repeat split; auto. }
   pose proof (decide_sends_no_gain g c (sn_ledval sn)) as D.
   destruct (pl_nothing (plan_regions (snd (decide_sends g c (sn_ledval sn))) (fst (decide_sends g c (sn_ledval sn))) sn)).
   - exact D.
   - eapply no_gain_trans; [exact D|]. apply render_no_gain.
+Qed.
+
+Lemma model_update_no_gain : forall g c sn, no_gain c (fst (model_update g c sn)).
+Proof.
+  intros g c sn. unfold model_update. eapply no_gain_trans; [apply prelude_no_gain|apply model_update_core_no_gain].
 Qed.
 
 Lemma reach_ok : forall g latest c, reach g latest c -> pref_ok c /\ flags_ok latest c.
@@ -378,7 +392,7 @@ Qed.
 Lemma render_justified : forall g latest c c1 s sn pl c' n hs lm ovf,
   pref_ok c -> flags_ok latest c -> decide_sends g c (sn_ledval sn) = (s, c1) ->
   (pl_copy pl <> [] -> rgn_is_empty (sn_copy sn) = false) ->
-  render_update c1 s sn pl = (c', USent n hs lm ovf) ->
+  render_update g c1 s sn pl = (c', USent n hs lm ovf) ->
   Forall (phdr_justified latest (c_named c) (negb (rgn_is_empty (sn_copy sn))) lm) hs.
 Proof.
   intros g latest c c1 s sn pl c' n hs lm ovf Hp Hf Ed Hcopy Hm.
@@ -386,7 +400,7 @@ Proof.
   destruct (no_gain_keeps latest c c1 D Hp Hf) as [Hp1 Hf1].
   assert (Hn1 : c_named c1 = c_named c) by (destruct D as (_ & N & _); exact N).
   unfold render_update in Hm.
-  destruct (announce (c_pref c1) (c_lastrect c1) (sn_cmw sn) (sn_cmh sn) (sn_maxrects sn) (pl_region pl)
+  destruct (announce_sel g (c_pref c1) (c_lastrect c1) (sn_cmw sn) (sn_cmh sn) (sn_maxrects sn) (pl_region pl)
                      (Z.of_nat (length (pl_copy pl))) (n_pseudo s)) as [[[n0 region'] lm0]|] eqn:Ea;
     [|inversion Hm].
   destruct (region_hdrs (c_pref c1) (emit_region (c_pref c1) (c_lastrect c1) (sn_cmw sn) (sn_cmh sn) region'))
@@ -450,14 +464,13 @@ Proof.
     right. right. right. left. split; reflexivity.
 Qed.
 
-Lemma caps_update : forall g latest c sn c' n hs lm ovf,
-  reach g latest c ->
-  model_update g c sn = (c', USent n hs lm ovf) ->
+Lemma core_justified : forall g latest c sn c' n hs lm ovf,
+  pref_ok c -> flags_ok latest c ->
+  model_update_core g c sn = (c', USent n hs lm ovf) ->
   Forall (phdr_justified latest (c_named c) (negb (rgn_is_empty (sn_copy sn))) lm) hs.
 Proof.
-  intros g latest c sn c' n hs lm ovf Hr Hm.
-  destruct (reach_ok g latest c Hr) as [Hp Hf].
-  unfold model_update in Hm.
+  intros g latest c sn c' n hs lm ovf Hp Hf Hm.
+  unfold model_update_core in Hm.
   destruct (c_newfbsize c && c_fbpending c) eqn:Enew.
   { unfold newfb_update in Hm. injection Hm as _ Hn Hh Hl _. subst n hs lm.
     constructor; [|constructor]. cbn [phdr_justified].
@@ -470,6 +483,19 @@ Proof.
   eapply render_justified; [exact Hp|exact Hf|exact Ed| |exact Hm].
   intros Hne. destruct (sn_copy sn) eqn:Ec; [|reflexivity].
   exfalso. apply Hne. apply plan_copy_empty. exact Ec.
+Qed.
+
+Lemma caps_update : forall g latest c sn c' n hs lm ovf,
+  reach g latest c ->
+  model_update g c sn = (c', USent n hs lm ovf) ->
+  Forall (phdr_justified latest (c_named c) (negb (rgn_is_empty (sn_copy sn))) lm) hs.
+Proof.
+  intros g latest c sn c' n hs lm ovf Hr Hm.
+  destruct (reach_ok g latest c Hr) as [Hp Hf].
+  pose proof (prelude_no_gain g c sn) as D.
+  destruct (no_gain_keeps latest c _ D Hp Hf) as [Hp1 Hf1].
+  assert (Hn : c_named (bpp24_prelude g c sn) = c_named c) by (destruct D as (_ & N & _); exact N).
+  rewrite <- Hn. eapply core_justified; [exact Hp1|exact Hf1|exact Hm].
 Qed.
 
 (* ---- the repaired request path (d5a464d): what enters requestedRegion is never degenerate ---- *)
